@@ -171,11 +171,11 @@ Definition to_tobs (o : obs) : Trackers.tobs :=
 (* ---- Open() ---- *)
 Lemma sim_open : forall s g prev tg, I1 s -> Sim s g prev tg ->
   exists tg', Trackers.check_call pool tg Trackers.TOpen (to_tobs (mkObs [] 0 (rmap ids (Open s)))) = (None, tg') /\
-              Sim s g None tg'.
+              Sim s g prev tg'.
 Proof.
   intros s g prev tg H1 S. rewrite (Open_vis s H1). unfold Trackers.check_call, to_tobs. simpl.
   rewrite (sim_vis _ _ _ _ S), list_eqb_refl. simpl. eexists. split; [reflexivity|].
-  destruct S. constructor; simpl; auto. discriminate.
+  destruct S. constructor; simpl; auto.
 Qed.
 
 (* ---- "twice in a row", from the simulation's memory of the previous call ---- *)
@@ -565,8 +565,8 @@ Proof.
   - (* Open *)
     inversion HS; subst s' g'. clear HS.
     simpl. rewrite (Open_vis s H1). simpl. rewrite (sim_vis _ _ _ _ SM), list_eqb_refl. simpl.
-    eapply IH with (g := g) (prev := None); eauto.
-    destruct SM. constructor; simpl; auto. discriminate.
+    eapply IH with (g := g) (prev := prev); eauto.
+    destruct SM. constructor; simpl; auto.
 Qed.
 
 (* MODEL MEETS SPEC: the trace checker accepts what the model does, for every history over a
